@@ -240,3 +240,104 @@ PROPS["C19"] = {
         {"bin": "c19", "quick": {"cases": 250, "workers": 16, "budget": 250}, "thorough": {"cases": 6000, "workers": 16, "budget": 1800}},
     ],
 }
+
+
+# ---------------------------------------------------------------- C03: mutation sweep + libFuzzer campaign
+def _fuzz_stage(chk, st):
+    """libFuzzer campaign (fork mode) on fuzz/<bin>.cc; artifacts are converted to input=<hex> cases and classified by the
+    ASan sweep binary (3 replays, known-finding predicates); the final corpus is run through the same binary for the
+    evidence counters.  crash-/leak-/timeout- artifacts count, oom-/slow-unit- never do."""
+    import os, sys, glob, json, shutil, subprocess, re, time
+    sys.path.insert(0, os.path.dirname(os.path.abspath(__file__)))
+    import build as B
+    t = st[chk.tier]
+    fz = B.build_harness(st["bin"], "asan", fuzzer=True)
+    exe = B.build_harness(st["classifier"], "asan")
+    root = os.path.join(B.BUILD, "fuzz", chk.pid)
+    shutil.rmtree(root, ignore_errors=True)
+    os.makedirs(root)
+    # dictionary from the chunk ids / magic numbers of the working tree
+    toks = set()
+    for f in glob.glob(os.path.join(B.REPO, "src", "*.c")) + glob.glob(os.path.join(B.REPO, "src", "*.h")):
+        for m in re.finditer(r"MAKE_MARKER\s*\(\s*'(.)'\s*,\s*'(.)'\s*,\s*'(.)'\s*,\s*'(.)'\s*\)", open(f, errors="replace").read()):
+            toks.add("".join(m.groups()))
+    dpath = os.path.join(root, "dict.txt")
+    with open(dpath, "w") as f:
+        for tk in sorted(toks):
+            f.write('"' + "".join("\\x%02x" % ord(c) for c in tk) + '"\n')
+    total_execs, units = 0, 0
+    for camp in t["campaigns"]:
+        cdir = os.path.join(root, camp["name"])
+        corpus, art = os.path.join(cdir, "corpus"), os.path.join(cdir, "artifacts")
+        os.makedirs(corpus); os.makedirs(art)
+        seeds = []
+        if camp.get("seeded"):
+            sdir = os.path.join(cdir, "seeds")
+            subprocess.run([exe, "--out", os.path.join(chk.rundir, "emit"), "--emit-corpus", sdir], env=chk.env, check=True, stdout=subprocess.DEVNULL, stderr=subprocess.DEVNULL)
+            seeds = [sdir]
+        env = dict(chk.env)
+        env["ASAN_OPTIONS"] = "detect_leaks=1:allocator_may_return_null=1:detect_stack_use_after_return=0:abort_on_error=0"
+        cmd = [fz, "-fork=%d" % t.get("workers", 16), "-ignore_crashes=1", "-ignore_timeouts=1", "-ignore_ooms=1", "-max_total_time=%d" % camp["seconds"],
+               "-max_len=65536", "-timeout=25", "-rss_limit_mb=3000", "-dict=" + dpath, "-seed=%d" % (chk.seed * 7919 + 13), "-artifact_prefix=" + art + "/",
+               "-print_final_stats=1", corpus] + seeds
+        log = os.path.join(cdir, "fuzz.log")
+        with open(log, "w") as lf:
+            try:
+                subprocess.run(cmd, stdout=lf, stderr=lf, env=env, cwd=cdir, timeout=camp["seconds"] * 3 + 300)
+            except subprocess.TimeoutExpired:
+                chk.notes.append("fuzz campaign %s exceeded its hard wall limit and was stopped (inconclusive, not a violation)" % camp["name"])
+        text = open(log, errors="replace").read()
+        m = re.findall(r"#(\d+): cov: (\d+) ft: (\d+) corp: (\d+)", text)
+        execs = int(m[-1][0]) if m else 0
+        total_execs += execs
+        chk.notes.append("fuzz campaign %s: %d executions, cov %s, features %s, corpus %s units, %ds" % (camp["name"], execs, m[-1][1] if m else "?", m[-1][2] if m else "?", m[-1][3] if m else "?", camp["seconds"]))
+        # artifacts
+        arts = sorted(glob.glob(os.path.join(art, "crash-*")) + glob.glob(os.path.join(art, "leak-*")) + glob.glob(os.path.join(art, "timeout-*")))
+        ignored = len(glob.glob(os.path.join(art, "oom-*")) + glob.glob(os.path.join(art, "slow-unit-*")))
+        chk.notes.append("fuzz campaign %s: %d artifacts to classify, %d oom/slow-unit artifacts ignored" % (camp["name"], len(arts), ignored))
+        seen = 0
+        for a in arts[:200]:
+            case = a + ".case"
+            with open(case, "w") as f:
+                f.write("input=" + open(a, "rb").read().hex() + "\n#stage=%s\n#artifact=%s\n" % (st["classifier"], os.path.basename(a)))
+            if chk.confirm_and_report(exe, case, "libFuzzer artifact %s" % os.path.basename(a)):
+                seen += 1
+                if seen >= 5:
+                    break
+        # corpus statistics through the ASan binary (also a second opinion on every unit)
+        out = os.path.join(chk.rundir, "fuzz_%s_w0" % camp["name"])
+        os.makedirs(out, exist_ok=True)
+        r = subprocess.run([exe, "--out", out, "--kf", chk.kf_file, "--stats", corpus, "--budget", "600"], env=chk.env, stdout=subprocess.PIPE, stderr=subprocess.PIPE, text=True, errors="replace")
+        if r.returncode == 1 and os.path.exists(os.path.join(out, "failing.case")):
+            chk.confirm_and_report(exe, os.path.join(out, "failing.case"), "corpus unit fails in the ASan build")
+        elif r.returncode not in (0, 1) and os.path.exists(os.path.join(out, "current.case")):
+            chk.confirm_and_report(exe, os.path.join(out, "current.case"), "corpus unit kills the ASan build (rc=%d)\n%s" % (r.returncode, r.stderr[-3000:]))
+        try:
+            c = json.load(open(os.path.join(out, "counters.json")))
+            c.setdefault("extra", {})["fuzz_executions"] = execs
+            json.dump(c, open(os.path.join(out, "counters.json"), "w"))
+        except Exception:
+            pass
+        shutil.rmtree(os.path.join(cdir, "seeds"), ignore_errors=True)
+
+CUSTOM["fuzz"] = _fuzz_stage
+
+PROPS["C03"] = {
+    "level": "exploration",
+    "engine": "enumeration + libFuzzer",
+    "technique": "fuzzing with a semantic oracle inside the target: systematic structure-aware mutation sweep of a generated seed corpus (fork-isolated, every cell attributed) plus a coverage-guided libFuzzer campaign on the same target function",
+    "rule": "stage 0 (enumerated): every seed file (catalogue entry x {1,2} channels, plus metadata-rich variants of WAV/WAVEX/RF64/AIFF/CAF/W64 carrying strings, bext, cart, cue, smpl/INST, chan, PEAK and custom chunks) x mutation {none, truncate, truncate + flipped header byte, zero/0xFF a 4-byte field, flip a byte, set a field to 24 boundary constants in both byte orders, swap adjacent chunks, inflate a chunk size with and without truncation} x position {every byte of the first 96 (2600 for rich seeds), every chunk boundary +-1, 20 evenly spaced, the tail} with a derived 4-8 op script and route {virtual I/O 70 %, memfd descriptor, pipe}; "
+            "stage 1 (libFuzzer, coverage-guided, fork mode): input = file bytes || <= 24 ops || control (route, RAW SF_INFO with 16 encodings), seeded corpus + dictionary of all MAKE_MARKER ids, and an empty-corpus campaign in thorough; "
+            "oracle inside the target: NULL => sf_error(NULL) != 0 and a message; handle => 1 <= channels <= 1024, samplerate >= 1, frames >= 0, sections >= 1, container and encoding among the public constants; every read count <= request; ASan + bounds on exact-size caller buffers for all four read types, sf_read_raw, strings, every GET/CALC command, SF_CUES_VAR(1,2,3,100), chunk iteration with exact and short buffers; invariant hook after every call; per-call I/O budget 2000000 + 100 callbacks per input byte (virtual I/O), 30 s alarm / libFuzzer -timeout=25 for CPU-bound loops; LSan per group; "
+            "non-trivial = the open succeeded; distinct = one per enumerated cell (stage 0) / corpus unit (stage 1)",
+    "assumptions": BASE_ASSUME + ["negative read returns are counted (class negative_read_return) but not judged: the statement bounds time and memory accesses, not return conventions",
+                                  "allocator_may_return_null=1: a hostile size that makes malloc fail must be handled by the library, a size that malloc can satisfy lazily is only caught through the work it causes",
+                                  "timeout-/crash-/leak- artifacts count only when they reproduce three times in the ASan sweep binary; oom- and slow-unit- artifacts are load noise and never count",
+                                  "the pipe route is limited to inputs of at most 60000 bytes (one pipe buffer)"],
+    "stages": [
+        {"bin": "c03", "quick": {"cases": 0, "workers": 16, "budget": 400}, "thorough": {"cases": 0, "workers": 16, "budget": 1500}},
+        {"kind": "fuzz", "bin": "c03_fuzz", "classifier": "c03",
+         "quick": {"workers": 16, "campaigns": [{"name": "seeded", "seeded": True, "seconds": 60}]},
+         "thorough": {"workers": 16, "campaigns": [{"name": "seeded", "seeded": True, "seconds": 1200}, {"name": "empty", "seeded": False, "seconds": 600}]}},
+    ],
+}
